@@ -67,10 +67,26 @@ def cases(draw, tier):
     if draw(st.integers(0, 2)) == 0:
         ignore = draw(st.lists(st.sampled_from(['gtsam::A', 'Foo', 'ns1::Bar<double>', 'B']),
                                min_size=1, max_size=3, unique=True))
+    elif draw(st.booleans()):
+        # classes the module really has, spelled as the generators compare them
+        # (template arguments separated by ', ')
+        try:
+            from vlib import refinst
+            cls = PC.classes_of(refinst.expected(M.observable(m)))
+        except Exception:
+            cls = []
+        multi = [c_ for c_ in cls if ',' in c_['cpp']]
+        if multi and draw(st.booleans()):
+            cls = multi  # an entry with a comma in it (Pair<A, B>)
+        if cls:
+            k_ = draw(st.integers(1, min(2, len(cls))))
+            for c_ in draw(st.permutations(cls))[:k_]:
+                ignore.append(PC.spaced(c_['cpp']) if c_['k'] == 'class'
+                              else PC.spaced_inner(c_['cpp']))
     opts = {'top': top, 'ignore': ignore, 'boost': draw(st.booleans())}
     # both scripts read a leading '::' as "already rooted at the global namespace"
     opts['top_cli'] = '::' + top if top and draw(st.integers(0, 2)) == 0 else top
-    scripts = draw(st.integers(0, 7)) == 3
+    scripts = draw(st.integers(0, 7 if not any(',' in x for x in ignore) else 1)) == 1
     return {'files': files, 'options': opts, 'scripts': scripts}
 
 
